@@ -5,6 +5,17 @@ import os
 
 VERIF = os.path.dirname(os.path.dirname(os.path.abspath(__file__)))
 
+# properties whose model consumes atoms read from the source by tools/gen_source_lean.py
+SOURCE_ATOMS = {
+    'C10': '(how `limit` is tested in the in-memory and file based cassettes; the S3 window operators)',
+    'C14': '(the operator table of `_operator_filter`)',
+    'C15': '(the S3 key layout constants)',
+    'C16': '(the two comparison operators of the last-modified window, the day-folder count of `_get_id_prefixes`)',
+    'C17': '(`sampling_rate >= 1` and `sample_value <= sampling_rate` in `_should_sample_active_recording`)',
+    'C18': '(the reserved operation output alias)',
+    'C20': '(`file_size_in_mb > limit`, the above-limit placeholder bytes, the default limit)',
+}
+
 # id -> (technique, level text, level note, design ref)
 CLAIMED = {
     'C14': ('Lean 4 theorems over a hand-written model of the matcher (totality, meaning of each filter form), tied to '
@@ -223,6 +234,11 @@ def main():
         if pid not in CLAIMED:
             continue
         tech, text, note, ref = CLAIMED[pid]
+        if pid in SOURCE_ATOMS:
+            tech += ('; the decision atoms ' + SOURCE_ATOMS[pid] + ' are regenerated from the source (AST) on every run into '
+                     'PlaybackModel/Source.lean, the model consumes them and lake build re-checks the dependent theorems '
+                     '(a proof that no longer checks is reported as proof-broken, with a concrete failing input when the '
+                     'oracle finds one)')
         checks.append({
             'property_id': pid,
             'quick_cmd': '/venv/bin/python checks/check.py --prop %s --tier quick' % pid,
@@ -249,7 +265,9 @@ def main():
             'path': 'checks/check.py',
             'serves_properties': sorted(CLAIMED),
             'kind_free_text': 'Lean 4 theorems about a hand-written executable model (lean/), tied to /repo on every run by a '
-                              'differential correspondence check (harness/) that runs model and real code on the same cases',
+                              'differential correspondence check (harness/) that runs model and real code on the same cases, and by '
+                              'a translator (tools/gen_source_lean.py) that regenerates the decision atoms of the model (comparison '
+                              'operators, operator table, constants) from the source so that the theorems are re-checked against them',
         }],
         'checks': checks,
         'not_applicable': [{'property_id': pid, 'reason': NOT_YET} for pid in ALL if pid not in CLAIMED],
